@@ -331,8 +331,17 @@ class DataFrameSchemaBackend(PolarsSchemaBackend):
         }
 
         # Append missing columns
+        # NOTE: a plain string is a column reference in an expression
+        # context, so the default has to be passed as a literal
         check_obj = check_obj.with_columns(
-            **{k: v.default for k, v in missing_cols_schema.items()}
+            **{
+                k: (
+                    v.default
+                    if isinstance(v.default, pl.Expr)
+                    else pl.lit(v.default)
+                )
+                for k, v in missing_cols_schema.items()
+            }
         ).cast({k: v.dtype.type for k, v in missing_cols_schema.items()})
 
         # Set column order
